@@ -181,6 +181,7 @@ def specRun : List Bytes → List Op → List Bytes × List Bool
     let rest := specRun (if x ∈ names then names else names ++ [x]) ops
     (rest.1, fresh :: rest.2)
   | names, .rm :: ops => specRun names.dropLast ops
+  | _, .reset :: ops => specRun [] ops
 
 /-- Any history (inserts and removeLast in any order, across the mode switch) behaves as the mode-free reference. -/
 theorem run_spec (ops : List Op) : ∀ (ns : Namespace), WF ns →
@@ -205,6 +206,11 @@ theorem run_spec (ops : List Op) : ∀ (ns : Namespace), WF ns →
       refine ⟨?_, ih2⟩
       simp only [Namespace.run, specRun]
       rw [← h1]; exact ih1
+    | reset =>
+      obtain ⟨ih1, ih2⟩ := ih ns.reset wf_empty
+      refine ⟨?_, ih2⟩
+      simp only [Namespace.run, specRun]
+      exact ih1
 
 end JsonV.Lemmas.Dup
 
